@@ -45,13 +45,22 @@ def _convention(conv):
 
         def convert_parameter_name(self, name):
             return name.upper()
-    return {"camel": conventions.CamelCaseConvention, "python": conventions.PythonConvention, "custom": Shouting}[conv]()
+    return {"camel": conventions.CamelCaseConvention, "python": conventions.PythonConvention, "custom": Shouting}[base_conv(conv)]()
+
+
+NOFB = "!nofb"       # suffix of a convention name: the context is created with group_by_agg_fallback=False
+DLG = "!dlg"         # suffix of a convention name: the context is created with delegates=True (lambda(..), $fn(..))
+
+
+def base_conv(conv):
+    return conv.split("!")[0]
 
 
 def context(conv="camel"):
-    """the standard context under one of three naming conventions (the same functions, other spellings)"""
+    """the standard context under one of three naming conventions (the same functions, other spellings);
+    `<conv>!nofb`: the same with groupBy's old-style aggregator fallback switched off"""
     if conv not in _ctxs:
-        c = yaql.create_context(convention=_convention(conv))
+        c = yaql.create_context(convention=_convention(conv), group_by_agg_fallback=NOFB not in conv, delegates=DLG in conv)
         c.register_function(_tick, name="tick")
         _ctxs[conv] = c
     return _ctxs[conv]
@@ -72,10 +81,11 @@ def name_maps(conv):
     """default (camelCase) spelling -> spelling under `conv`, for every registered function and keyword parameter.
     Functions are matched between the two registries by their payloads (names given explicitly at registration are
     not converted, decorator and Python names are), parameters by their raw names."""
+    conv = base_conv(conv)
     if conv not in _maps:
         from yaql.language import conventions, specs
         camel, other = conventions.CamelCaseConvention(), _convention(conv)
-        d0, d1 = _registry(yaql.create_context()), _registry(yaql.create_context(convention=other))
+        d0, d1 = _registry(yaql.create_context(delegates=True)), _registry(yaql.create_context(convention=other, delegates=True))
         fm = {}
         for n, keys in d0.items():
             cands = sorted(m for m, k in d1.items() if k == keys)
@@ -106,7 +116,7 @@ _KW_RE = re.compile(r"\b(%s)(\s*=>)" % "|".join(KW_PARAMS))
 
 def conv_text(text, conv):
     """the same expression spelled for a context created with another naming convention"""
-    if conv == "camel":
+    if base_conv(conv) == "camel":
         return text
     fm, pm = name_maps(conv)
     text = _CALL_RE.sub(lambda m: fm.get(m.group(1), m.group(1)) + m.group(2), text)
@@ -308,6 +318,12 @@ def _cnt_text(c):
     return "" if c is None else ", %d" % c
 
 
+GAGG_TEXT = {"idxpair": "[$[0], $[1]]", "idxlen": "[$[0], $[1].len()]", "idxsum": "[$[0], $[1].sum()]", "third": "$[2]",
+             "len": "$.len()", "sum": "$.sum()", "first": "$.first()", "id": "$"}
+GAGG_GAL = {"idxpair": "GIdxPair", "idxlen": "GIdxLen", "idxsum": "GIdxSum", "third": "GThird", "len": "GLenA", "sum": "GSumA",
+            "first": "GFirstA", "id": "GIdA"}
+
+
 def stage_apply_text(expr, sg, pr, alias=0):
     """yaql text of `sg` applied to the expression text `expr`"""
     k = sg[0]
@@ -354,6 +370,15 @@ def stage_apply_text(expr, sg, pr, alias=0):
         return m(k, vtext(sg[1]))
     if k in ("memorize", "reverse", "toList", "toSet", "cycle", "single", "len", "count", "min", "max"):
         return m(k)
+    if k == "selectManyG":         # the selector returns a LAZY group
+        g = sg[1]
+        body = {"seq": lambda: "sequence($)", "range": lambda: "range($)",
+                "repeat": lambda: "$.repeat()" if g[1] is None else "$.repeat(%d)" % g[1],
+                "host": lambda: "$grp", "hostmap": lambda: "$grp.select(%s)" % lt(g[2], pr),
+                "hostfilter": lambda: "$grp.where(%s)" % lt(g[2], pr)}[g[0]]()
+        return m("selectMany", pr.wrap(body))
+    if k == "groupByG":            # the aggregator protocol: [key, value] pairs grouped on $[0], values $[1]
+        return m("groupBy", "$[0]", "$[1]", GAGG_TEXT[sg[1]])
     if k == "groupByLegacy":       # the pre-1.1.1 aggregator: a function of [key, values] returning [key, aggregate]
         agg = pr.wrap(["[$[0], $[1].len()]", "[$[0], $[1].sum()]", "[$[0], $[1].first()]"][sg[3]])
         return m("groupBy", lt(sg[1], pr), lt(sg[2] if sg[2] is not None else ("id",), pr), agg)
@@ -526,6 +551,14 @@ def stage_gal(sg):
     if k in ("memorize", "reverse", "toList", "toSet", "cycle", "single", "len", "count", "min", "max",
              "dictFromItems", "keysList", "valuesList", "itemsList"):
         return "S" + k[0].upper() + k[1:]
+    if k == "selectManyG":
+        g = sg[1]
+        t = {"seq": lambda: "GSeq", "range": lambda: "GRange", "repeat": lambda: A("GRepeat", gal.opt(g[1], gal.nat)),
+             "host": lambda: A("GHost", gal.z(g[1])), "hostmap": lambda: A("GHostMap", gal.z(g[1]), lam_gal(g[2])),
+             "hostfilter": lambda: A("GHostFilter", gal.z(g[1]), lam_gal(g[2]))}[g[0]]()
+        return A("SSelectManyG", t)
+    if k == "groupByG":
+        return A("SGroupByG", "(LIdx 0)", "(Some (LIdx 1))", GAGG_GAL[sg[1]], gal.boolean(sg[2]))
     if k == "groupByLegacy":
         return A("SGroupByAgg", lam_gal(sg[1]), ol(sg[2] if sg[2] is not None else ("id",)), gal.nat(sg[3]))
     if k == "orderBy":
@@ -648,7 +681,7 @@ STAGE_NAMES = {
     "dictGet": ["get"], "containsKey": ["containsKey"], "containsValue": ["containsValue"],
     "union": ["union"], "intersect": ["intersect"], "difference": ["difference", "#operator_-"],
     "symmetricDifference": ["symmetricDifference"], "setAdd": ["add"], "setRemove": ["remove"],
-    "self": ["memorize"], "keysView": ["keys"], "groupByAgg": ["groupBy"], "groupByLegacy": ["groupBy"], "attr": ["#operator_."], "unpackNamed": [], "unpackIdx": [], "with": [],
+    "self": ["memorize"], "keysView": ["keys"], "groupByAgg": ["groupBy"], "groupByLegacy": ["groupBy"], "groupByG": ["groupBy"], "selectManyG": ["selectMany"], "attr": ["#operator_."], "unpackNamed": [], "unpackIdx": [], "with": [],
     "zipLongest": ["zipLongest"], "listOf": ["list"], "mergeWithX": ["mergeWith"], "dictSetMany": ["set"], "dictSetInline": ["set"],
     "assertAny": [], "flatten": ["flatten"], "defaultIfEmpty": ["defaultIfEmpty"], "times": ["#operator_*"], "isList": ["isList"],
     "isDict": ["isDict"], "isSet": ["isSet"], "isIterable": ["isIterable"], "in": ["#operator_in"],
@@ -921,7 +954,7 @@ def engine_opts(**opts):
             o["yaql.convertInputData"] = False
         if opts.get("rawout"):
             o["yaql.convertOutputData"] = False
-        _engines_opt[key] = yaql.YaqlFactory().create(options=o)
+        _engines_opt[key] = yaql.YaqlFactory(allow_delegates=bool(opts.get("delegates"))).create(options=o)
     return _engines_opt[key]
 
 
@@ -1533,10 +1566,17 @@ def gen_pipeline(rng, maxlen=4):
     return src, stages
 
 
+def fb_conv(stages, conv):
+    """the context a pipeline runs in: created with group_by_agg_fallback=False when a groupByG stage says so"""
+    if any(s[0] == "groupByG" and not s[2] for s in stages) and NOFB not in conv:
+        return conv + NOFB
+    return conv
+
+
 def run_pipeline(src, stages, literal=False, aliases=None, probe=False, conv="camel"):
     text0, _ = source_setup(src, literal)
     text = conv_text(pipeline_text(text0, stages, probe=probe, aliases=aliases), conv)
-    return text, evaluate_fresh(text, lambda: source_setup(src, literal)[1], conv=conv)
+    return text, evaluate_fresh(text, lambda: source_setup(src, literal)[1], conv=fb_conv(stages, conv))
 
 
 def case_term(src, stages, obs):
